@@ -1,4 +1,5 @@
 import AgdbDb.Props.C08
+import AgdbDb.Props.C08Arrays
 import AgdbDb.Props.C09
 import AgdbDb.Props.C11
 import AgdbDb.Props.C13
